@@ -5,7 +5,7 @@ FIELDS = ('out', 'vars', 'cls')
 RULE = 'well-typed expression trees (depth<=6) over int/decimal/string/bool literals and variables, all 13 operators, !( ), random layout; thorough: all 169 operator pairs; distinct expressions with >= 2 operators'
 ARITH = ['+', '-', '*', '/', '//', '%', '^']
 CMP = ['==', '!=', '<', '>', '<=', '>=']
-VARSETS = [{'a': 2, 'ab': 3, 'abc': 5}, {'count1': 5, 'count': 2}, {'x': 7, 'xy': 1, 'y': 4}, {'n': 3}, {'v': 10, 'v1': 4, 'v12': 6, 'tr': 2, 'fals': 9}, {}]
+VARSETS = [{'True': 5, 'Falsey': 2, 'TrueCount': 3}, {'true': 4, 'tRUE': 6, 'false1': 1}, {'a': 2, 'ab': 3, 'abc': 5}, {'count1': 5, 'count': 2}, {'x': 7, 'xy': 1, 'y': 4}, {'n': 3}, {'v': 10, 'v1': 4, 'v12': 6, 'tr': 2, 'fals': 9}, {}]
 
 
 def layout(g, e, parent=0, right=False):
@@ -162,6 +162,25 @@ def generate(g, tier):
             for _k in range(len(vals)):
                 exp.append('STRING ' + ev(env)); env[k0] += 7
         cases.append(dict(op='compile', src=dict(text='\n'.join(lines)), meta=dict(family='reeval', form='outs', expout=exp)))
+    # ... and their current TYPE: the same text after the variable went from 1 to TRUE, 0 to FALSE, to a decimal, to a string
+    TYPED = [('1', '1'), ('TRUE', 'True'), ('0', '0'), ('FALSE', 'False'), ('2.5', '2.5'), ('"s"', 's'), ('2', '2'), ('""', ''), ('1.0', '1')]
+    for _ in range(count(tier, 60, 600)):
+        nm = r.choice(['flag', 'n', '_', 'True', 'x_1'])
+        seq = [r.choice(TYPED) for _k in range(r.randint(2, 4))]
+        if g.chance(0.6): seq = r.choice([[TYPED[0], TYPED[1]], [TYPED[1], TYPED[0]], [TYPED[2], TYPED[3]], [TYPED[3], TYPED[2], TYPED[0]], [TYPED[6], TYPED[8], TYPED[4]]])
+        text = r.choice([f'"v=" + {nm}', f'"v="+({nm})', f'{nm} + ""', f'"" + {nm} + "|" + {nm}'])
+        show = lambda v: {f'"v=" + {nm}': 'v=' + v, f'"v="+({nm})': 'v=' + v, f'{nm} + ""': v, f'"" + {nm} + "|" + {nm}': v + '|' + v}[text]
+        how = r.choice(['seq', 'func', 'param'])
+        lines, exp = [], []
+        if how == 'seq':
+            for lit, v in seq: lines += [f'VAR {nm} {lit}', f'$STRING {text}']; exp.append('STRING ' + show(v))
+        elif how == 'func':
+            lines += ['FUNC show', f'    $STRING {text}']
+            for lit, v in seq: lines += [f'VAR {nm} {lit}', 'RUN show']; exp.append('STRING ' + show(v))
+        else:
+            lines += [f'FUNC show {nm}', f'    $STRING {text}']
+            for lit, v in seq: lines += [f'RUN show {lit}']; exp.append('STRING ' + show(v))
+        cases.append(dict(op='compile', src=dict(text='\n'.join(lines)), meta=dict(family='retyped', form='outs', expout=exp)))
     # division by zero in every position
     for op in ('/', '//', '%'):
         for _ in range(count(tier, 10, 60)):
